@@ -2,6 +2,7 @@ CONSTANTS
   MaxOps = 6
   MaxReq = 1
   TwoStep = FALSE
+  Exotic = FALSE
   Hold = TRUE
   Free = FALSE
 SPECIFICATION Spec
